@@ -57,11 +57,12 @@ def model_check(ctx, quick):
     CEX["cex-stale"] = (cex_steps(r), 10)
     # plausible regressions modelled as fault variants: their counterexamples are adversarial scripts that the
     # unchanged code passes and a tree with that regression fails
-    for fault, invariant in (("cancelctx", "NoStartAfterCancel"), ("overtimenodue", "NoEarlyOvertime")):
-        r = ctx.tlc("TasksImpl", cfg_text=vlib.cfg_text(constants=consts(2, 3, 10, 4, fault=fault), invariants=[invariant],
-                                                        view="View"), timeout=1500, want_ok=False, count=False)
+    for fault, invariant, md in (("cancelctx", "NoStartAfterCancel", 10), ("overtimenodue", "NoEarlyOvertime", 10),
+                                 ("lateexecuting", "NoSelfOverlap", 2)):
+        r = ctx.tlc("TasksImpl", cfg_text=vlib.cfg_text(constants=consts(2, 3, md, 4, atomic=(fault != "lateexecuting"), fault=fault),
+                                                        invariants=[invariant], view="View"), timeout=1500, want_ok=False, count=False)
         info["fault_variant_" + fault] = r.violated or "holds"
-        CEX["cex-" + fault] = (cex_steps(r), 10)
+        CEX["cex-" + fault] = (cex_steps(r), md)
     return info
 
 
